@@ -26,7 +26,7 @@ REQUIRED = ["op.add", "op.add-list", "op.add-network", "op.remove_obstacle", "op
             "op.remove_traffic_sign", "op.remove_traffic_sign-list", "op.remove_traffic_light",
             "op.remove_traffic_light-list", "op.remove_intersection", "op.remove_intersection-list",
             "op.replace_lanelet_network", "op.erase_lanelet_network", "op.generate_object_id", "collision-predicted",
-            "re-add-after-removal", "hooked-state-checked"]
+            "re-add-after-removal", "hooked-state-checked", "nonpositive-ids"]
 EXHAUSTIVE = {"quick": "all operation sequences of length <= 2 over the fixed 18-operation alphabet",
               "thorough": "all operation sequences of length <= 3 over the fixed 18-operation alphabet"}
 ASSUMPTIONS = ["atomicity of list adds beyond the failing element is not demanded (elements before it stay added)",
@@ -98,6 +98,12 @@ class Universe:
             self.spec["Op%d" % i] = ("phantom", [i], lambda i=i: ph(i))
         for i in (10, 2):
             self.spec["Oe%d" % i] = ("environment", [i], lambda i=i: en(i))
+        # ids <= 0 are valid for obstacles (only lanelet-network elements need natural numbers)
+        self.nonpositive = []
+        for key, kind, i, fn in (("Os-1", "static", -1, st), ("Od-7", "dynamic", -7, dy), ("Oe0", "environment", 0, en),
+                                 ("Op-3", "phantom", -3, ph), ("Os-12", "static", -12, st)):
+            self.spec[key] = (kind, [i], lambda i=i, fn=fn: fn(i))
+            self.nonpositive.append(key)
         # networks: members are (key-like) elements with their own ids
         self.nets = {
             "N1": [("lanelet", 1, ("L", [5], [6])), ("lanelet", 2, ("L", [5], [])), ("sign", 5, None), ("light", 6, None),
@@ -501,3 +507,21 @@ def run(ctx):
         if i < 2:
             ctx.sample({"history": [[o, a] for o, a in hist[:12]], "length": len(hist)})
         run_history(hist, "random")
+    # ------------------------------------------------------------------- scenarios whose ids are all zero or negative
+    neg = list(U.nonpositive)
+    n = ctx.pick(500, 20000)
+    for i, rng in ctx.cases("nonpositive-ids", n):
+        hist, have = [], []
+        for _ in range(rng.randint(3, 12)):
+            c = rng.random()
+            if c < 0.45:
+                k = rng.choice(neg)
+                hist.append(("add", k))
+                have.append(k)
+            elif c < 0.60 and have:
+                hist.append(("remove", rng.choice(have)))
+            else:
+                hist.append(("gen", None))
+        ctx.feature("nonpositive-ids")
+        ctx.fingerprint(["neg", [[o, a] for o, a in hist]])
+        run_history(hist, "nonpositive")
